@@ -61,11 +61,12 @@ func (o *oracle) onStep(r *ipamkv.Runner, st *ipamkv.Step, ctx *ipamkv.ThreadCtx
 			}
 		}
 	}
-	// (2) a block's recorded affinity always has an affinity object of that host
+	// (2) NOT part of the property (it is the converse of "a confirmed claim matches the block"):
+	// a block recording an affinity for a host that holds no affinity object for it is only counted
 	for b, blk := range w.Blocks {
 		if blk.Aff >= 0 {
 			if _, ok := w.Affs[[2]int{blk.Aff, b}]; !ok {
-				o.fail("block-without-affinity", "a block records an affinity for a host that holds no affinity object for it", map[string]any{"block": b, "host": blk.Aff})
+				o.h.Count("obs:block-without-affinity-object")
 			}
 		}
 	}
